@@ -62,7 +62,9 @@ def cases(draw):
     ref = [i for i, k in enumerate(kinds) if k == "reflective"]
     form = draw(st.sampled_from(["list", "array", "none-if-empty"]))
     draw(st.randoms(use_true_random=False)).shuffle(per)
-    return {"ndim": ndim, "vals": vals, "periodic": per, "reflective": ref, "form": form}
+    # memory layout of a 2-D input: C-ordered, Fortran-ordered, a transposed view of a (d, n) block, a strided view (every other row)
+    layout = draw(st.sampled_from(["C", "C", "F", "T", "strided"])) if ndim == 2 else "C"
+    return {"ndim": ndim, "vals": vals, "periodic": per, "reflective": ref, "form": form, "layout": layout}
 
 
 def _idx(lst, form):
@@ -100,6 +102,14 @@ def execute(case):
 
     arr2 = np.array([[float(x) for x in row] for row in case["vals"]], dtype=np.float64)
     arr = arr2[0].copy() if case["ndim"] == 1 else arr2.copy()
+    lay = case.get("layout", "C")
+    if case["ndim"] == 2 and lay == "F":
+        arr = np.asfortranarray(arr)
+    elif case["ndim"] == 2 and lay == "T":
+        arr = np.ascontiguousarray(arr.T).T  # a transposed view of a C-ordered (d, n) block
+    elif case["ndim"] == 2 and lay == "strided":
+        big = np.repeat(arr, 2, axis=0)
+        arr = big[::2]  # non-contiguous view with the same values
     d = arr2.shape[1]
     per, ref = _idx(case["periodic"], case["form"]), _idx(case["reflective"], case["form"])
     before = arr.copy()
